@@ -136,6 +136,25 @@ def handle : List String → String
   | "spec_annex" :: ts => optS do
       let w ← whole pWitness ts
       pure s!"{fOptBytes (Spec.Sighash.annexOf w.items)} {Spec.Sighash.extFlagOf w.items}"
+  -- finalize tx i k point… m sig… v (point msg body)… b badbody…
+  --   the selection logic of Tx.finalize_p2tr_multisig; `verify` answered from the triples the harness knows to be
+  --   valid by construction (signer, signed digest, signature) and the bodies SchnorrSignature.parse refuses
+  | "finalize" :: ts => optS do
+      let (t, ts) ← pTx ts
+      let (i, ts) ← oneNat ts
+      let (points, ts) ← parseCounted oneBytes ts
+      let (sigs, ts) ← parseCounted oneBytes ts
+      let (valid, ts) ← parseCounted (fun ts => do
+        let (p, ts) ← oneBytes ts
+        let (m, ts) ← oneBytes ts
+        let (b, ts) ← oneBytes ts
+        pure ((p, m, b), ts)) ts
+      let bad ← whole (parseCounted oneBytes) ts
+      let verify := fun (p m b : Bytes) => if bad.contains b then none else some (valid.contains (p, m, b))
+      pure <| orReject do
+        let o ← finalizeP2trMultisig cfg HH xonlyOK verify { tx := t } i (some points) sigs
+        let txin ← o.tx.ins[i]?
+        pure (fWitness txin.witness)
   | ["cfg"] => s!"{fmtBool cfg.memo} {cfg.annexMin} {fmtBool (cfg == Cfg.repaired)}"
   | _ => BADOP
 
